@@ -39,7 +39,9 @@ C_Step ==
   /\ l' = l + 1 /\ UNCHANGED <<drift, driftAt, tno>>
   /\ IF Ev.e = "Quiet" THEN Publish(FALSE, 0, obs') ELSE TRUE
 
-IsHop(e) == e \in {"HopRcpt", "HopAccept", "Report"}
+\* "Restarted": the harness stopped the server cleanly and started a new queue on the same spool
+\* (invisible to the end-to-end statement: consumed like a hop-side event, no obligation)
+IsHop(e) == e \in {"HopRcpt", "HopAccept", "Report", "Restarted"}
 ObsApply(o, e) ==
   CASE e.e = "Rcpt"      -> ObsRcpt(o, e.r, e.ok)
     [] e.e = "End"       -> ObsEndTxn(o, e.ok)
